@@ -157,7 +157,7 @@ def encodeRes : Res → String
   | .val v => encodeValue v
   | .err => "err"
   | .panic => "panic"
-  | .opaque => "?"
+  | .unmodelled => "?"
 
 def encodeTcErr : TcErr → String
   | .reject => "tc-reject"
